@@ -15,10 +15,13 @@ CONSTANTS
   MaxKick = 1
   Serial = FALSE
   CopyBusy = TRUE
+  CopyWoken = FALSE
+  Founders = {1, 2, 3, 4, 5}
   FixCloseRace = TRUE
   FixGetValue = TRUE
   FixBlocking = TRUE
   FixCopyParked = TRUE
+  FixCopyOfWoken = TRUE
 INVARIANTS TypeOK WindowShape WindowSufficient GapFreeInOrder NoDuplicate SkipMonotone EOSOnlyWhen CloseWakesAll NoLostWaiter PosConsistent FreeListSound ThreadsOK NobodyForgotten
 PROPERTIES RecentIsNewest BehindSkipsOnlyDropped CopyIndependent GrowOnlyWhenFull
 CHECK_DEADLOCK FALSE
